@@ -147,16 +147,17 @@ type rProposal struct {
 }
 
 type rTxn struct {
-	id          int
-	ro          bool
-	ops         []obs
-	beginIdx    uint64 // FSM index the transaction started at
-	raftLastIdx uint64 // raft's last log index at begin (> beginIdx: FSM was lagging)
-	finishIdx   uint64 // FSM index when it finished
-	writes      int
-	own         map[string][]byte
-	committed   bool
-	rolledBack  bool
+	id            int
+	ro            bool
+	ops           []obs
+	beginIdx      uint64 // FSM index the transaction started at
+	raftLastIdx   uint64 // raft's last log index at begin (> beginIdx: FSM was lagging)
+	finishIdx     uint64 // FSM index when it finished
+	idxAfterBegin uint64 // FSM index right after BeginTx returned (> beginIdx: entries were applied while it ran)
+	writes        int
+	own           map[string][]byte
+	committed     bool
+	rolledBack    bool
 }
 
 type rRead struct {
@@ -376,6 +377,7 @@ func RunRaftWorkload(rc *RunCtx, h *RaftH, prop string) *RaftRun {
 				if lag := t.raftLastIdx - t.beginIdx; t.raftLastIdx > t.beginIdx && lag > rr.MaxLag {
 					rr.MaxLag = lag
 				}
+				t.idxAfterBegin = raft.VerifFSMIndex(fsm)
 				note("%s T%d begin ro=%v @fsm=%d raft_last=%d", name, t.id, t.ro, t.beginIdx, t.raftLastIdx)
 				for _, op := range job.ops {
 					s.Gate("op", fmt.Sprintf("%s T%d %s %s", name, t.id, op.kind, op.key), false)
@@ -614,7 +616,12 @@ func CheckRaftSerial(rc *RunCtx, h *RaftH, rr *RaftRun, prop string) {
 				commits++
 				next := state.Clone()
 				if bad, want := replayObs(t.ops, next); bad != nil {
-					viol("stale-read-committed", map[string]any{"fsm_behind_raft_at_begin": lagging, "obs": string(bad.kind), "root_listing_shows_chunk_storage": seesChunkStore(bad)},
+					// what kind of staleness: were entries applied while BeginTx ran (between
+					// reading the start index and registering with the tracker), and are the
+					// reads at least those of the state at the recorded start index?
+					atStart, _ := replayObs(t.ops, stateAt(t.beginIdx).Clone())
+					viol("stale-read-committed", map[string]any{"fsm_behind_raft_at_begin": lagging, "obs": string(bad.kind), "root_listing_shows_chunk_storage": seesChunkStore(bad),
+						"applied_during_begin": t.idxAfterBegin > t.beginIdx, "reads_match_state_at_start_index": atStart == nil},
 						"T%d (began at fsm index %d while raft's last index was %d; committed at index %d) committed although it observed %s, but in log order the %s; ops %v",
 						t.id, t.beginIdx, t.raftLastIdx, l.Index, bad, want, t.ops)
 					return
